@@ -55,11 +55,11 @@ func checkC06(c *Ctx) (int, error) {
 	if err := c.writerModels(); err != nil {
 		return 0, err
 	}
-	maxLen := 2
+	maxLen := 3
 	if c.Tier == "thorough" {
 		maxLen = 4
 	}
-	cfg := genCfg(`"gzip", "zlib"`, []int{0, 1, 2}, maxLen, 1, false, []string{"Write", "Flush", "Reset"}, "")
+	cfg := genCfg(`"gzip", "zlib"`, []int{0, 1, 2}, maxLen, 2, false, []string{"Write", "Flush", "Reset"}, "")
 	behs, err := c.Behaviours("WriterModel", "GEN_C06.cfg", map[string]string{"GEN_C06.cfg": cfg}, 10*time.Minute)
 	if err != nil {
 		return 0, err
